@@ -20,6 +20,13 @@ def _continuum_resolution(ctx: Ctx, f, rule: str):
     ok = isinstance(first, ast.If) and norm(first.test) == f"{cp} is None" and len(first.body) == 2 and \
         isinstance(first.body[0], ast.If) and norm(first.body[0].test) == f"{sn}.continuum is None" and _raises(first.body[0].body, "ValueError") and \
         norm(first.body[1]) == f"{cp} = {sn}.continuum"
+    # the same resolution, assignment first: `if c is None: c = self.continuum ; if c is None: raise ValueError`
+    ok = ok or (isinstance(first, ast.If) and norm(first.test) == f"{cp} is None" and len(first.body) == 2 and not first.orelse and
+                norm(first.body[0]) == f"{cp} = {sn}.continuum" and isinstance(first.body[1], ast.If) and norm(first.body[1].test) == f"{cp} is None" and
+                not first.body[1].orelse and _raises(first.body[1].body, "ValueError"))
+    if not ok and not (isinstance(first, ast.If) and f"{cp}" in norm(first.test)):
+        ctx.undecided(rule, f, first, "the resolution of the continuum to check against is not the first statement: shape not recognised (not a verdict)", key="continuum-resolution")
+        return
     ctx.check(ok, rule, f, first, "checks against the given continuum, else the attached one, else ValueError", key="continuum-resolution")
 
 
